@@ -21,3 +21,64 @@ Proof. vm_compute. reflexivity. Qed.
 Example literal_roundtrip_legacy_refuted :
   exists s, expressible_min s = true /\ parse_zql_string_legacy (literal_min s) <> s.
 Proof. exists [97; 92; 110; 98]. split; [reflexivity | vm_compute; discriminate]. Qed.
+
+(* ---- comparisons against stored values (Lang/StrCompare.v) ---- *)
+From Storage Require Import Lang.Tokens Lang.BoolSurface Lang.WordOps Lang.StrCompare.
+
+Definition tok_in : str := [105; 110].                       (* in *)
+Definition tok_not_in : str := [78; 111; 84; 9; 73; 110].    (* NoT<TAB>In *)
+Definition notebook : str := [78; 111; 116; 101; 98; 111; 111; 107].   (* Notebook *)
+Definition not_in_x : str := [110; 111; 116; 32; 105; 110; 32; 91; 34; 120; 34; 93].   (* not in ["x"] *)
+
+Example tok_in_spelled : spells_wordop wo_in false tok_in.
+Proof. apply SwoPlain. repeat constructor. Qed.
+
+Example tok_not_in_spelled : spells_wordop wo_in true tok_not_in.
+Proof.
+  apply (SwoNeg wo_in [78; 111; 84] [9] [73; 110]).
+  - repeat (constructor; [(left; reflexivity) || (right; reflexivity)|]). constructor.
+  - constructor. reflexivity.
+  - repeat (constructor; [(left; reflexivity) || (right; reflexivity)|]). constructor.
+Qed.
+
+(* a list literal that spells `not` selects exactly the row holding it; a literal that spells a whole
+   `not in [..]` clause does too *)
+Example in_list_keyword_literals :
+  in_query tok_in (map literal_full [sample; notebook; not_in_x]) (Some notebook) = true /\
+  in_query tok_in (map literal_full [sample; notebook; not_in_x]) (Some [110; 111; 116]) = false /\
+  in_query tok_not_in (map literal_full [notebook]) (Some notebook) = false /\
+  in_query tok_not_in (map literal_full [notebook]) (Some not_in_x) = true.
+Proof. vm_compute. repeat split. Qed.
+
+(* the stored empty string is matched by the empty literal, a row without value is not *)
+Example empty_string_is_a_value :
+  cmp_query SEq (literal_full []) (Some []) = true /\ cmp_query SEq (literal_full []) None = false /\
+  cmp_query SNeq (literal_full []) (Some []) = false /\ cmp_query SContains (literal_full []) (Some []) = true /\
+  in_query tok_in [literal_full []] (Some []) = true /\ any_of_eq_seek (literal_full []) [[]; [97]] = true.
+Proof. vm_compute. repeat split. Qed.
+
+Example seek_hits_and_misses :
+  ascending [[]; [97]; [97; 98]; [110; 111; 116]] = true /\
+  any_of_eq_seek (literal_full [97; 98]) [[]; [97]; [97; 98]; [110; 111; 116]] = true /\
+  any_of_eq_seek (literal_full [97; 97]) [[]; [97]; [97; 98]; [110; 111; 116]] = false.
+Proof. vm_compute. repeat split. Qed.
+
+(* Two readings that are NOT the code's and do not satisfy the property.
+   (1) deciding the negation of `in` from the text of the whole in-expression instead of the operator token:
+       a list literal that contains the letters n-o-t flips the operator *)
+Definition in_query_expr_text (lhs tok : str) (lits : list str) (c : stored) : bool :=
+  let r := in_string_array_eval (row_eval_string c) (map parse_zql_string lits) in
+  if op_negated (lhs ++ tok ++ [91] ++ concat lits ++ [93]) then negb r else r.
+
+Example in_negation_from_expression_text_refuted :
+  exists s x, in_query_expr_text [110; 97; 109; 101] tok_in [literal_full s] (Some x) <> str_eqb x s.
+Proof. exists notebook, notebook. vm_compute. discriminate. Qed.
+
+(* (2) treating a zero-length stored value as "no value": the empty literal then denotes nothing *)
+Definition row_eval_string_empty_is_nil (c : stored) : option str :=
+  match get_typed c with (_, []) => None | (t, v) => field_to_string t v end.
+
+Example empty_value_as_nil_refuted :
+  exists s x, binary_string_eval SEq (row_eval_string_empty_is_nil (Some x)) (Some (parse_zql_string (literal_full s)))
+              <> str_eqb x s.
+Proof. exists [], []. vm_compute. discriminate. Qed.
